@@ -1598,6 +1598,9 @@ class _SessionTrackingClient:
         token = hdrs.get(SESSION_HEADER) or hdrs.get(SESSION_HEADER.lower())
         if token:
             self._view._token = token
+            # A new session was opened for this view (possibly after an
+            # earlier one was closed): the exit-time DELETE applies again.
+            self._view._closed = False
         # Capture VGI-Echo-* on every response (cheap; only emitted on session
         # open, so subsequent responses are no-ops). httpx2 headers are
         # case-insensitive but _SyncTestResponse stores lowercase — iterate
